@@ -142,9 +142,9 @@ pub fn semilegal_ref(p: &Pos, m: M) -> bool {
             if p.cells[rook_sq as usize] != mk(us, R) { return false; }
             // squares between king and rook are empty
             let (lo, hi) = if king_side { (5u8, 6u8) } else { (1u8, 3u8) };
-            let mut f = lo;
-            while f <= hi {
-                if p.cells[(base + f) as usize] != EMPTY { return false; }
+            let mut f = 1u8;
+            while f <= 6 {
+                if f >= lo && f <= hi && p.cells[(base + f) as usize] != EMPTY { return false; }
                 f += 1;
             }
             // king is not in check and does not cross an attacked square
